@@ -81,7 +81,7 @@ theorem roundtrip_of_variant (v : Variant) (sc : Scenario) (names : List Bytes) 
   · intro row hrow
     have hmem : row ∈ rows := List.mem_of_mem_tail hrow
     have hcont := containsLabel_expected v sc names rows w row hmem
-    obtain ⟨r0, rest, hrows, _, _, _, hrest⟩ := w.first
+    obtain ⟨r0, rest, hrows, hlab0, _, _, hrest⟩ := w.first
     subst hrows
     have hne : (row.label == sAsIs) = false := by simpa using hrest row (by simpa using hrow)
     have hcont' : containsLabel row.label
@@ -91,6 +91,22 @@ theorem roundtrip_of_variant (v : Variant) (sc : Scenario) (names : List Bytes) 
     simp only [lookup, expectedTable, List.map_cons, List.tail_cons, hcont', hroute, Bool.not_true,
       Bool.false_eq_true, if_false, hne]
     simp only [List.tail_cons] at hrow
+    -- with `getSolutionDetail` repaired the search covers row 0 too: the As-Is row is skipped (its label differs)
+    have hskip : findDetail v { header := header names, cells := rowCells v r0 :: List.map (rowCells v) rest } row.label
+        (if v.guards = true then rowCells v r0 :: List.map (rowCells v) rest else List.map (rowCells v) rest)
+        = findDetail v { header := header names, cells := rowCells v r0 :: List.map (rowCells v) rest } row.label
+            (List.map (rowCells v) rest) := by
+      split
+      · have rf0 := rowFacts (w.shape r0 (by simp))
+        simp only [findDetail, labelOf_rowCells v r0 rf0.label]
+        have hdiff : (some r0.label == some row.label) = false := by
+          rw [hlab0]
+          have : row.label ≠ sAsIs := hrest row hrow
+          simp [beq_eq_false_iff_ne, Ne.symm this]
+        rw [hdiff]
+        simp
+      · rfl
+    rw [hskip]
     apply findDetail_rows v _ names sc rest (fun r hr => w.shape r (by simp [hr]))
       (mem_of_allDistinct_cons (by simpa using w.distinct)).2 _ _ _ row hrow
     · simp only [encodingIndex, header, List.length_cons, List.length_append, List.length_nil]
@@ -270,11 +286,11 @@ theorem noEncodingLostByCast_of_noCastCollision (rows : List Row)
   fun row hrow => readsBack_of_noCastCollision _ (h row hrow)
 
 /-- with only D9 repaired (`colsFromEnd`), every layout is served, the cast hypothesis remains -/
-theorem roundtrip_colsFromEnd (sc : Scenario) (names : List Bytes) (rows : List Row) (pr : Bool)
+theorem roundtrip_colsFromEnd (sc : Scenario) (names : List Bytes) (rows : List Row) (pr g : Bool)
     (h : wellFormed sc names rows = true) (hrb : NoEncodingLostByCast rows) :
-    ∃ t, loadSummary ⟨true, false, pr⟩ sc (renderSummary names rows) = .ok t ∧
-      lookup ⟨true, false, pr⟩ sAsIs t = .asIs ∧
-      ∀ row ∈ rows.tail, lookup ⟨true, false, pr⟩ row.label t = .found row.encoding row.note :=
+    ∃ t, loadSummary ⟨true, false, pr, g⟩ sc (renderSummary names rows) = .ok t ∧
+      lookup ⟨true, false, pr, g⟩ sAsIs t = .asIs ∧
+      ∀ row ∈ rows.tail, lookup ⟨true, false, pr, g⟩ row.label t = .found row.encoding row.note :=
   roundtrip_of_variant _ sc names rows h rfl
     (by simp only [encodingsReadBack, Bool.or_eq_true, List.all_eq_true]; exact Or.inr hrb)
 
@@ -392,7 +408,7 @@ example : wellFormed sc6' names6 [asIs6', row6 "x" "12.000" "1ABC"] = true ∧
     = .ok [false, false, true, true, true, true, false, true, false, true, false, true, true] := by decide
 -- with D9 repaired alone the nine-column summary is served as written
 set_option maxRecDepth 100000 in
-example : serve ⟨true, false, false⟩ sc6 names6 [asIs6, row6 "x" "3.500" "A:1F"] "x"
+example : serve ⟨true, false, false, false⟩ sc6 names6 [asIs6, row6 "x" "3.500" "A:1F"] "x"
     = .found (ascii "A:1F") (ascii "Pareto front member 1 of 1") := by decide
 
 -- malformed input (outside `wellFormed`), transcribed panics: a label that exists only in row 0,
